@@ -39,9 +39,12 @@ var backends = []backend{
 	{"cvc5", func(f string, t int) []string {
 		return []string{"cvc5", fmt.Sprintf("--tlimit=%d", t*1000), "--lang=smt2", f}
 	}, "ALL"},
+	{"cvc5-enum", func(f string, t int) []string {
+		return []string{"cvc5", fmt.Sprintf("--tlimit=%d", t*1000), "--lang=smt2", "--enum-inst", f}
+	}, "ALL"},
 }
 
-var solverSem = make(chan struct{}, 14)
+var solverSem = make(chan struct{}, 16)
 var queryCounter int64
 
 // workDir is the scratch directory of this run.
